@@ -52,11 +52,11 @@ ModelStep(cs, v) ==
        ELSE RM!ReplyMatches(m, v) /\ store' = PutF(store, cs.db, m.ks)
 
 \* the reference store's own contents after the requests delivered so far
-EntryOf(k) == CASE k.ty = "string" -> [ty |-> "string", v |-> k.v]
-                [] k.ty = "hash" -> [ty |-> "hash", h |-> {<<k.h[i][1], k.h[i][2]>> : i \in 1..Len(k.h)}]
-                [] k.ty = "list" -> [ty |-> "list", l |-> k.l]
-                [] k.ty = "set" -> [ty |-> "set", s |-> {k.s[i] : i \in 1..Len(k.s)}]
-                [] k.ty = "zset" -> [ty |-> "zset", z |-> {[m |-> k.z[i].m, s |-> k.z[i].s] : i \in 1..Len(k.z)}]
+EntryOf(k) == CASE k.ty = "string" -> [ty |-> "string", v |-> k.v, x |-> k.x]
+                [] k.ty = "hash" -> [ty |-> "hash", h |-> {<<k.h[i][1], k.h[i][2]>> : i \in 1..Len(k.h)}, x |-> k.x]
+                [] k.ty = "list" -> [ty |-> "list", l |-> k.l, x |-> k.x]
+                [] k.ty = "set" -> [ty |-> "set", s |-> {k.s[i] : i \in 1..Len(k.s)}, x |-> k.x]
+                [] k.ty = "zset" -> [ty |-> "zset", z |-> {[m |-> k.z[i].m, s |-> k.z[i].s] : i \in 1..Len(k.z)}, x |-> k.x]
 DumpKS(keys) == [kk \in {keys[i].k : i \in 1..Len(keys)} |-> EntryOf(keys[CHOOSE i \in 1..Len(keys) : keys[i].k = kk])]
 StoreDumpOK(e) ==
   /\ \A i \in 1..Len(e.dbs) : DumpKS(e.dbs[i].keys) = KS(e.dbs[i].db)
